@@ -333,6 +333,14 @@ def d2_guard_normalises(ctx, guard, gname, gmode):
         if attrs & CONTAINMENT or any(isinstance(op, (ast.In, ast.NotIn)) and 'parents' in norm(c)
                                       for op in c.ops):
             contain = True
+        # prefix comparison of path components: `parts[:len(protectedparts)] == protectedparts`
+        if len(c.ops) == 1 and isinstance(c.ops[0], ast.Eq):
+            for a_, b_ in ((c.left, c.comparators[0]), (c.comparators[0], c.left)):
+                if isinstance(a_, ast.Subscript) and isinstance(a_.slice, ast.Slice) and a_.slice.lower is None and \
+                        isinstance(a_.slice.upper, ast.Call) and dotted(a_.slice.upper.func) == 'len' and \
+                        a_.slice.upper.args and norm(a_.slice.upper.args[0]) == norm(b_) and \
+                        'parts' in (closure_attrs(guard, a_)[0] & closure_attrs(guard, b_)[0]):
+                    contain = True
     inst = 'guard compares a path-normalised form of the joined path (use sites join the name to the directory)'
     LEXICAL = {'normpath', 'abspath'}
     lexical = [norm(c) for t, c, o, attrs in name_compares if (attrs & LEXICAL) and not (attrs & (NORMALISERS - LEXICAL))]
